@@ -88,7 +88,7 @@ macro_rules! field_checks {
             $st.violation(Violation { sig: format!("simd LANES {tn}"), case: json!({"type": tn}), what: "LANES != 1".into() });
         }
         // ---------------------------------------------------------------- unary methods
-        let reals = [-2.5, -0.625, 0.3125, 0.75, 1.25, 2.0];
+        let reals = [-2.5, -0.625, 0.3125, 0.75, 1.25, 2.0, 0.0, -0.0];
         let xs = operands::<F>(l, &reals, 0);
         let ys = operands::<F>(l, &[-1.25, 0.5, 1.5, 0.0, -0.0], l.nslots());
         // predicates on special values: non-finite real parts, and finite real parts carrying
